@@ -357,6 +357,7 @@ def st_cases(rng, tier):
 #   N m  delay k (delay k' (ref 0)) / small delays around it, a clone of the stack after j calls (NC),
 #        the statically typed forms leaf.delay(k).outer(p) / leaf.inner(p).delay(k) / Equilibrium|Gen|GenMut.delay(k)
 #   N 3  ref 0                  still where it was left
+# (one base in five is itself delay(k'') of the finite source: silence through every op of the case)
 # The model receives the true k (Signal/SigRun.v normalises, see sigcases.py).
 
 def count_cases(rng, tier):
@@ -376,6 +377,8 @@ def count_cases(rng, tier):
                 if r.chance(1, 3):
                     base = g.unary(g.unary_kind(), base)
                 other = r.choice([k2 for k2 in ks if k2 != k])
+                if r.chance(1, 5):  # the base itself is delayed beyond the whole case: every borrow of it, in every op, yields silence
+                    base = ["delay", other, base]
                 m = r.range(3, 5)
                 ops = [["N", m, S.count_ctx(g, ["delay", k, ["ref", 0]], r.choice([0, 1, 1, 2]))],
                        ["N", 2, ["ref", 0]],
